@@ -29,3 +29,28 @@ Theorem C03_warning :
   forall (a : cand) (rest : list cand), snd (resolve_from a rest) = true <-> lacks_prec a rest.
 Proof. exact Resolve.warning_iff. Qed.
 Print Assumptions C03_warning.
+
+From YG Require Import LRBase CompleteDriver LASuperset LASubset TableCert Pipeline PipelineLA.
+Close Scope Z_scope.
+Open Scope nat_scope.
+
+(* C03 for the tables the pipeline emits: the lookahead table computed with sharing (nullable list once, Follow once per nonterminal transition) holds, for every reduction in every state, exactly the LR(1) lookaheads over all access paths of that state, i.e. the union over the canonical LR(1) states with that core *)
+Theorem C03_pipeline :
+  forall gi : ginfo,
+         (forall r d : nat, nth_error (rhs_of (gi_rules gi) r) d <> Some 0) ->
+         lhs_of (gi_rules gi) 0 = 0 ->
+         (forall r d : nat, nth_error (rhs_of (gi_rules gi) r) d <> Some eof) ->
+         rhs_of (gi_rules gi) 0 = [start_user (gi_rules gi)] ->
+         ~ is_nt (gi_rules gi) eof ->
+         (forall (seq : list nat) (l : nat),
+          ~ is_nt (gi_rules gi) l -> exists b : nat, first_seq (gi_rules gi) (seq ++ [l]) b) ->
+         forall t : tables,
+         generate_tables gi = inr t ->
+         forall q r a : nat,
+         q < length (t_aut t) ->
+         r <> 0 ->
+         In (r, length (rhs_of (gi_rules gi) r)) (items (st (t_aut t) q)) ->
+         In a (la_lookup (t_la t) q r) <->
+         C03Assembly.LALR_LA (gi_rules gi) (t_aut t) q (r, length (rhs_of (gi_rules gi) r)) a.
+Proof. exact PipelineLA.pipeline_lookaheads_exact. Qed.
+Print Assumptions C03_pipeline.
